@@ -250,6 +250,45 @@ def _ser(s):
     return "%s:%s" % (show_ints(s.index), show_rats(float(v) for v in np.asarray(s, dtype="float64")))
 
 
+def _safe(f, *a):
+    """describe a piece of evaluate's RESULT without ever raising: what cannot be shown is the token `?`"""
+    try:
+        return f(*a)
+    except Exception:
+        return "?"
+
+
+def _ints_tok(col):
+    vals = list(col)
+    if not vals:
+        return "-"
+    out = []
+    for v in vals:
+        try:
+            fv = float(v)
+            out.append(str(int(fv)) if fv == int(fv) else "?")
+        except Exception:
+            out.append("?")
+    return ",".join(out)
+
+
+def _floats_tok(col, exact=True):
+    vals = list(col)
+    if not vals:
+        return "-"
+    out = []
+    for v in vals:
+        try:
+            out.append(show_rat(float(v)) if exact else repr(float(v)))
+        except Exception:
+            out.append("?")
+    return ",".join(out)
+
+
+def _col(res, name):
+    return res[name] if name in res.columns else []
+
+
 def _frame(X):
     if X is None:
         return "none"
@@ -359,37 +398,41 @@ def run_real(c):
             f = NaiveForecaster(strategy=c["fc"])
             apply_pre(f, c.get("pre"))
             res = evaluate(f, make_cv(c["cv"]), y, strategy=c["strat"], scoring=scoring, return_data=True)
-            sc = [col for col in res.columns if col.startswith("test_")]
-            return "err=none score=%s len=%s cut=%s pred=%s" % (
-                ",".join(repr(float(v)) for v in res[sc[0]]), show_ints(res["len_train_window"]), show_ints(res["cutoff"]),
-                ";".join("%s:%s" % (show_ints(p.index), ",".join(repr(float(v)) for v in p)) for p in res["y_pred"]))
         except Exception as e:
             return "err=%s score=- len=- cut=- pred=-" % canon_err(e)
+        sc = [col for col in res.columns if str(col).startswith("test_")]
+        preds = [_safe(lambda p: "%s:%s" % (show_ints(p.index), _floats_tok(p, exact=False)), p) for p in _col(res, "y_pred")]
+        return "err=none score=%s len=%s cut=%s pred=%s" % (
+            _floats_tok(_col(res, sc[0]), exact=False) if sc else "-", _ints_tok(_col(res, "len_train_window")),
+            _ints_tok(_col(res, "cutoff")), ";".join(preds) if preds else "-")
     Rec = rec_class()
     f = Rec(fail=c.get("fail"))
     apply_pre(f, c.get("pre"))
     npre = len(f.log)
     err, name, score, ln, cut, data = "none", "-", "-", "-", "-", "-"
+    res = None
     try:
         y, X = make_data(c)
         scoring, _ = make_metric(c["met"])
         res = evaluate(f, make_cv(c["cv"]), y, X=X, strategy=c["strat"], scoring=scoring,
                        fit_params=None if c.get("fp") is None else {"tag": c["fp"]}, return_data=c["rd"])
-        cols = [col for col in res.columns if col not in ("fit_time", "pred_time")]
+    except Exception as e:
+        err = canon_err(e)
+    if res is not None:
+        cols = [str(col) for col in res.columns if col not in ("fit_time", "pred_time")]
         sc = [col for col in cols if col.startswith("test_")]
         name = ",".join(sc) if sc else "-"
-        score = show_rats(float(v) for v in res[sc[0]]) if sc else "-"
-        ln = show_ints(res["len_train_window"])
-        cut = show_ints(res["cutoff"])
+        score = _floats_tok(_col(res, sc[0])) if sc else "-"
+        ln = _ints_tok(_col(res, "len_train_window"))
+        cut = _ints_tok(_col(res, "cutoff"))
         has = [col in cols for col in ("y_train", "y_test", "y_pred")]
         if all(has):
-            data = ";".join("%s!%s!%s" % (_ser(r["y_train"]), _ser(r["y_test"]), _ser(r["y_pred"])) for _, r in res.iterrows())
+            rows = ["%s!%s!%s" % (_safe(_ser, r["y_train"]), _safe(_ser, r["y_test"]), _safe(_ser, r["y_pred"])) for _, r in res.iterrows()]
+            data = ";".join(rows) if rows else "-"
         elif any(has):
             data = "partial"
         else:
             data = "none"
-    except Exception as e:
-        err = canon_err(e)
     return "err=%s name=%s score=%s len=%s cut=%s data=%s npre=%d trace=%s" % (err, name, score, ln, cut, data, npre, ";".join(f.log) if f.log else "-")
 
 
@@ -528,11 +571,11 @@ def _oracle_lib(c, out):
         if splits and _cv_valid(c):
             fails.append(("evaluate:valid-call-raised", "evaluate raised %s with NaiveForecaster on an in-scope input" % d["err"]))
         return fails
-    scores = [float(v) for v in d["score"].split(",")]
+    scores = parse_floats_(d["score"])
     lens = parse_ints_(d["len"]); cuts = parse_ints_(d["cut"])
-    preds = d["pred"].split(";")
-    if not (len(scores) == len(lens) == len(cuts) == len(splits)):
-        return [("evaluate:rows-not-one-per-split", "%d rows for %d splits" % (len(scores), len(splits)))]
+    preds = [] if d["pred"] in ("-", "") else d["pred"].split(";")
+    if not (len(scores) == len(lens) == len(cuts) == len(preds) == len(splits)):
+        return [_rows_vs_splits([len(scores), len(lens), len(cuts), len(preds)], splits)]
     _, metric = make_metric(c["met"])
     g = NaiveForecaster(strategy=c["fc"])
     for i, (tr, te) in enumerate(splits):
@@ -544,32 +587,68 @@ def _oracle_lib(c, out):
         else:
             g.update(y.iloc[tr])
         yp = g.predict(fh)
-        got_lab, got_val = preds[i].split(":")
-        if got_lab != show_ints(yp.index) or not all(abs(float(a) - float(b)) <= 1e-9 * max(1, abs(float(b))) for a, b in zip(got_val.split(","), yp)):
+        got_lab, _, got_val = preds[i].partition(":")
+        got = parse_floats_(got_val)
+        if got_lab != show_ints(yp.index) or len(got) != len(yp) or not all(_near(a, float(b)) for a, b in zip(got, yp)):
             fails.append(("evaluate:forecast-differs-from-honest-fold", "fold %d (NaiveForecaster %s): %s vs %s" % (i, c["fc"], preds[i], list(yp))))
             break
         want = float(metric(y.iloc[te], yp))
-        if abs(scores[i] - want) > 1e-9 * max(1, abs(want)):
+        if not _near(scores[i], want):
             swapped = float(metric(yp, y.iloc[te]))
-            if abs(scores[i] - swapped) <= 1e-9 * max(1, abs(swapped)):
+            if _near(scores[i], swapped):
                 fails.append(("evaluate:score-args-swapped", "fold %d (NaiveForecaster, %s): reported %r = metric(y_pred, y_true); metric(y_true, y_pred) = %r" % (i, c["met"], scores[i], want)))
             else:
                 fails.append(("evaluate:score-differs-from-honest-fold", "fold %d (NaiveForecaster): reported %r, honest fold gives %r" % (i, scores[i], want)))
             break
         if lens[i] != len(tr):
-            fails.append(("evaluate:len-train-window", "fold %d: %d, window has %d" % (i, lens[i], len(tr))))
+            fails.append(("evaluate:len-train-window", "fold %d: %s, window has %d" % (i, lens[i], len(tr))))
             break
         if cuts[i] != int(g.cutoff):
-            fails.append(("evaluate:cutoff-column", "fold %d: %d, honest fold's forecaster says %d" % (i, cuts[i], int(g.cutoff))))
+            fails.append(("evaluate:cutoff-column", "fold %d: %s, honest fold's forecaster says %d" % (i, cuts[i], int(g.cutoff))))
             break
     return fails
 
 
 def parse_ints_(s):
-    return [] if s == "-" else [int(x) for x in s.split(",")]
+    """ints of a result column; an entry that is not an int is None"""
+    out = []
+    for x in ([] if s in ("-", "") else s.split(",")):
+        try:
+            out.append(int(x))
+        except Exception:
+            out.append(None)
+    return out
+
+
+def parse_floats_(s, rational=False):
+    """floats of a result column (exact rationals or reprs); nan / unreadable entries are None"""
+    out = []
+    for x in ([] if s in ("-", "") else s.split(",")):
+        try:
+            v = float(Fraction(x)) if rational else float(x)
+            out.append(None if v != v else v)
+        except Exception:
+            out.append(None)
+    return out
+
+
+def _near(a, b):
+    return a is not None and b is not None and b == b and abs(a - b) <= 1e-9 * max(1.0, abs(b))
+
+
+def _rows_vs_splits(nrows, splits):
+    return ("evaluate:rows-differ-from-splits", "%s rows for %d splits" % ("/".join(str(n) for n in sorted(set(nrows))), len(splits)))
 
 
 def oracle(c, out):
+    """never raises: a result of evaluate that the oracle cannot interpret is itself a failing input"""
+    try:
+        return _oracle(c, out)
+    except Exception as e:
+        return [("evaluate:result-not-interpretable", "%s: %s on output %s" % (type(e).__name__, e, str(out)[:200]))]
+
+
+def _oracle(c, out):
     fails = []
     if c["op"] == "lib":
         return _oracle_lib(c, out) if _in_scope(c) else fails
@@ -610,11 +689,10 @@ def oracle(c, out):
         return fails
     if splits is None:
         return fails
-    scores = [] if d["score"] == "-" else [float(parse_rat(v)) for v in d["score"].split(",")]
-    lens = [] if d["len"] == "-" else [int(v) for v in d["len"].split(",")]
-    cuts = [] if d["cut"] == "-" else [int(v) for v in d["cut"].split(",")]
+    scores = parse_floats_(d["score"], rational=True)
+    lens = parse_ints_(d["len"]); cuts = parse_ints_(d["cut"])
     if not (len(scores) == len(lens) == len(cuts) == len(splits)):
-        fails.append(("evaluate:rows-not-one-per-split", "%d rows for %d splits" % (len(scores), len(splits))))
+        fails.append(_rows_vs_splits([len(scores), len(lens), len(cuts)], splits))
         return fails
     # ---- the calls themselves: fold i trains on exactly split i's window and predicts exactly its test points
     fu = [p for p in calls if p[0] in ("F", "U")]
@@ -661,25 +739,25 @@ def oracle(c, out):
             g.update(ytr, xtr)
         yp = g.predict(fh, X=xte)
         want = float(metric(yte, yp))
-        if not close(scores[i], Fraction(want)):
+        if not _near(scores[i], want):
             swapped = float(metric(yp, yte))
-            if close(scores[i], Fraction(swapped)):
+            if _near(scores[i], swapped):
                 fails.append(("evaluate:score-args-swapped",
                               "fold %d: reported %r = metric(y_pred, y_true); metric(y_true, y_pred) = %r" % (i, scores[i], want)))
             else:
                 fails.append(("evaluate:score-differs-from-honest-fold", "fold %d: reported %r, honest fold gives %r" % (i, scores[i], want)))
             break
         if lens[i] != len(tr):
-            fails.append(("evaluate:len-train-window", "fold %d: %d, window has %d" % (i, lens[i], len(tr))))
+            fails.append(("evaluate:len-train-window", "fold %d: %s, window has %d" % (i, lens[i], len(tr))))
             break
         if cuts[i] != int(g.cutoff):
-            fails.append(("evaluate:cutoff-column", "fold %d: %d, honest fold's forecaster says %d" % (i, cuts[i], int(g.cutoff))))
+            fails.append(("evaluate:cutoff-column", "fold %d: %s, honest fold's forecaster says %d" % (i, cuts[i], int(g.cutoff))))
             break
         if c["rd"]:
             if len(rows) != len(splits):
                 fails.append(("evaluate:return-data-columns-missing", d["data"][:80]))
                 break
-            a, b, p = rows[i].split("!")
+            a, b, p = (rows[i].split("!") + ["?", "?", "?"])[:3]
             if a != _ser(ytr) or b != _ser(yte) or not _close_series(p, _ser(yp)):
                 fails.append(("evaluate:return-data-columns-differ", "fold %d: %s" % (i, rows[i][:120])))
                 break
@@ -703,15 +781,17 @@ def features(c, out):
         return ["op=split", "split=" + ("ok" if out.startswith("ytrain=") else out)]
     if c["op"] == "lib":
         return ["op=lib", "lib-prior-state=" + ("fresh" if c.get("pre") is None else "evaluated-before" if c["pre"][0] == "eval" else "fitted-on-other-data"),
+                "lib-initial_window=" + ("yes" if c["cv"][0] == "s" and c["cv"][4] is not None else "no"),
                 "lib-forecaster=naive-" + c["fc"], "lib-metric=" + c["met"], "lib-strategy=" + c["strat"],
                 "lib-result=" + ("table" if out.startswith("err=none") else out.split(" ")[0])]
     d = _fields(out)
     f = ["op=eval", "cv=" + c["cv"][0], "strategy=" + str(c["strat"]), "metric=" + c["met"], "X=" + ("yes" if c.get("x") is not None else "no"),
          "return_data=%s" % c["rd"], "result=" + ("table" if d["err"] == "none" else d["err"]), "fail=" + ("no" if c.get("fail") is None else "injected"),
+         "initial_window=" + ("yes" if c["cv"][0] == "s" and c["cv"][4] is not None else "no"),
          "prior-state=" + ("fresh" if c.get("pre") is None else "evaluated-before" if c["pre"][0] == "eval" else "fitted-on-other-data")]
     if d["err"] == "none":
-        n = len(d["len"].split(","))
-        f.append("rows=%s" % ("1" if n == 1 else "2-5" if n <= 5 else "6-20" if n <= 20 else "21+"))
+        n = len(parse_ints_(d["len"]))
+        f.append("rows=%s" % ("0" if n == 0 else "1" if n == 1 else "2-5" if n <= 5 else "6-20" if n <= 20 else "21+"))
     f.append("n=%s" % ("<=9" if len(c["yl"]) <= 9 else "<=40" if len(c["yl"]) <= 40 else ">40"))
     return f
 
@@ -840,7 +920,8 @@ def gen_cases(tier, rng):
         fh = rng.choice(FHS)
         wl = rng.randrange(1, 4)
         cv = rng.choice([["s", fh, wl, rng.randrange(1, 3), None, True], ["e", fh, wl, rng.randrange(1, 3), True],
-                         ["s", fh, wl, 1, wl + 1, True], ["w", fh, None], ["w", fh, wl], ["c", [3, 1], fh, 2]])
+                         ["s", fh, wl, 1, wl + 1, True], ["s", fh, wl, rng.randrange(1, 4), wl + rng.randrange(1, 3), True],
+                         ["w", fh, None], ["w", fh, wl], ["c", [3, 1], fh, 2]])
         c = _mk(rng, cv, n, rng.choice(["refit", "update", "update"]), rng.choice(["asym", "wasym", "default", "mape"]), rng.random() < 0.3,
                 rng.choice([0, 0, 1]), lab=rng.choice(["zero", "shift", "gap"]), fp=rng.choice([None, None, 4]))
         c["pre"] = _gen_pre(rng, c["yl"])
@@ -851,7 +932,7 @@ def gen_cases(tier, rng):
         n = rng.randrange(5, 16)
         fh = rng.choice(FHS)
         cv = rng.choice([["s", fh, rng.randrange(1, 4), rng.randrange(1, 3), None, True], ["e", fh, rng.randrange(1, 4), rng.randrange(1, 3), True],
-                         ["c", [2, 4, 6], fh, 2]])
+                         ["s", fh, 2, rng.randrange(1, 3), 3, True], ["c", [2, 4, 6], fh, 2]])
         cases.append(_mk(rng, cv, n, rng.choice(["refit", "update"]), "asym", rng.random() < 0.3, rng.choice([0, 1]),
                          fail=[rng.randrange(1, 9), rng.choice(["value", "type", "key", "index", "notimpl", "attr"])]))
     # ---- malformed / out-of-scope arguments (correspondence; the oracle skips what the property does not cover)
@@ -899,7 +980,7 @@ def gen_cases(tier, rng):
         wl = rng.randrange(2, max(3, n // 2))
         step = rng.randrange(1, 5)
         cv = rng.choice([["s", fh, wl, step, None, True], ["e", fh, wl, step, True], ["w", fh, None], ["s", fh, wl, step, wl + 2, True],
-                         ["c", sorted(rng.sample(range(2, n - 4), 2)), fh, wl]])
+                         ["s", fh, wl, step, wl + rng.randrange(1, 4), True], ["c", sorted(rng.sample(range(2, n - 4), 2)), fh, wl]])
         cases.append({"op": "lib", "fc": rng.choice(["last", "mean"]), "cv": cv, "strat": rng.choice(["refit", "update"]),
                       "met": rng.choice(["default", "mape"]), "yl": _labels(rng, n, rng.choice(["zero", "shift"])), "yv": _values(rng, n),
                       "x": None, "xl": None, "pre": None})
